@@ -67,4 +67,5 @@ def main(tier):
     chk.run("R-CONSTNONE", V.constnone, cx.repo, floor=2)
     chk.run("R-ATTRAGREE", V.attragree, cx.repo, floor=5)
     chk.run("R-PRECOND", FL.precond, cx.repo, floor=3)
+    chk.run("R-ELEMSIZE", V.elemsize, cx.repo, cx.schema, cx.sites, floor=4)
     return chk.finish()
